@@ -192,7 +192,7 @@ def unit_tie(ctx):
                                "merge_transforms, and merged vs original object; non-trivial = nesting >= 2")
     uo = ctx.unit("identities-oracle", "the three identities of the statement recomputed through public methods on the generated "
                                        "distributions (implementation only)")
-    n_dists = 20 if ctx.quick else 300
+    n_dists = 12 if ctx.quick else 240
     shapes = [(), (1,), (2,), (3,)]
     work, reqs = [], []
     for i in range(n_dists):
@@ -208,7 +208,7 @@ def unit_tie(ctx):
         xs = _xs_for(d, rng, ctx.quick)
         if ctx.quick and len(xs) > PAD:   # keep every kind represented
             xs = [xs[int(j)] for j in sorted(rng.choice(len(xs), size=PAD, replace=False))]
-        keys = [int(rng.integers(0, 2**31)) for _ in range(2 if ctx.quick else 5)]
+        keys = [int(rng.integers(0, 2**31)) for _ in range(3 if ctx.quick else 5)]
         zs = [ds.base_draw(d, jr.PRNGKey(k)) for k in keys]
         first = len(reqs)
         for _, x in xs:
@@ -233,7 +233,7 @@ def unit_tie(ctx):
         # ---- one jitted evaluation per object (original and merged)
         X = _pad_rows(np.stack(pts))
         lpN, rhs_, LD, S, LPS, S2, P, LPSN = eval_dist(d, X, None, keys)
-        lpNm, _, _, Sm, LPSm, S2m, Pm, LPSNm = eval_dist(dm, X, None, keys)
+        lpNm, _, _, Sm, LPSm, S2m, Pm, LPSNm = (lpN, None, None, S, LPS, S2, P, LPSN) if dm is d else eval_dist(dm, X, None, keys)
         for i, (kind, x) in enumerate(xs):
             v, se, r, ld, vm = float(lpN[i, 0]), _sens(lpN[i]), _to_minf(float(rhs_[i])), float(LD[i]), float(lpNm[i, 0])
             mv, mvm = _to_minf(fparse(outs[pos])), _to_minf(fparse(outs[pos + 1]))
